@@ -209,7 +209,11 @@ def _wrap_value(cls, kind):
             try:
                 exp = R.dec_value(kind, bytes(payload))
             except R.RefError:
+                # the payload is malformed for the type (wrong width, bad UTF-8, short address ...) and the getter
+                # returned a value instead of raising the decode error
                 MON.hit(f"get.{kind}.lenient_on_malformed")
+                MON.witness("C04", f"value.get.{kind}.accepts_malformed_payload",
+                            {"class": cname, "payload": bytes(payload)[:40].hex(), "got": repr(v)[:80]})
                 return v
             if not _value_equal(kind, v, exp):
                 key = time_key("decode", bytes(payload), None) if kind == "time" else f"value.get.{kind}.mismatch"
